@@ -310,21 +310,19 @@ def r7(run, db):
     for rt in m.runtimes():
         sb = m.start_body(rt)
         allmr = [c for c in db.calls_of("mark_running") if rt == "S" and "thread_local" not in c.fn.id or rt == "T" and "thread_local" in c.fn.id]
-        # the call sits in the body that races pre_start, or in a body lexically nested in it (e.g. the loop task), in
-        # which case the nested body's creation site stands for the call when dominance in the start body is asked
-        sites_in_sb = []
-        for x in allmr:
-            if x.fn.id == sb.id:
-                sites_in_sb.append((x, x.site))
-            else:
-                for par, csite in enclosing_chain(db, x.fn)[1:]:
-                    if par.id == sb.id:
-                        sites_in_sb.append((x, csite))
-        run.check(len(allmr) == 1 and len(sites_in_sb) == 1, "%s|mark_running-site" % rt, "mark_running is called once, in (or lexically under) the body that races pre_start", "mark_running is called at %s" % [c.where() for c in allmr], sb.where())
-        if not sites_in_sb:
+        mr = [c for c in allmr if c.fn.id == sb.id]
+        run.check(len(mr) == 1 and len(allmr) == 1, "%s|mark_running-site" % rt, "mark_running is called once, in the body that races pre_start", "mark_running is called at %s" % [c.where() for c in allmr], sb.where())
+        if not mr:
             continue
-        c, csite_sb = sites_in_sb[0]
-        mr = [c] if c.fn.id == sb.id else []
+        c = mr[0]
+        csite_sb = c.site
+        # the guard is armed before the task that will own it exists: a task cancelled before its first poll (abort right
+        # after spawn, runtime shutdown) drops the guard unpolled, and only an armed guard reports that to the supervisor
+        blk_ = m.spawn_block(rt)
+        cs_ = [(par, site) for par, site, _st in creation_sites(db, blk_) if par.id == sb.id]
+        run.check(bool(cs_) and all(sb.dominates(c.site, site) for par, site in cs_), "%s|mark_running-before-loop-task" % rt,
+                  "mark_running dominates the creation of the loop task (the lifecycle guard enters the task already armed)",
+                  "the loop task is created before mark_running (or mark_running runs inside it): a task cancelled before its first poll drops an unarmed guard, the child is unlinked and Stopped but its living supervisor never gets the terminal event", c.where())
         ps = m.sink_calls_for(rt + ".pre_start")
         aw = await_of_call(sb, ps[0]) if ps else []
         e = nested_variant_edge(sb, aw[0].poll, ["Ready", "Ok", "Ok", "Ok"]) if aw else None
